@@ -1,20 +1,6 @@
 package main
 
-// What is regenerated from the sources, per area. One Lean file per area:
+// What is regenerated from the sources, per area: one Lean file per area,
 // lean/FianoModel/Gen/<Area>.lean, namespace Fiano.Gen.<Area>.
-var specs = []Spec{
-	{Area: "Fmap", Pkg: "pkg/fmap", Items: []Item{
-		{Kind: "bytesvar", Name: "Signature"},
-		{Kind: "const", Name: "FmapAreaStatic"},
-		{Kind: "const", Name: "FmapAreaCompressed"},
-		{Kind: "const", Name: "FmapAreaReadOnly"},
-		{Kind: "layout", Name: "Header"},
-		{Kind: "layout", Name: "Area"},
-		{Kind: "layout", Name: "String"},
-		{Kind: "calls", Name: "readField", Arg: "binary.Read"},
-		{Kind: "calls", Name: "Write", Arg: "binary.Write"},
-		{Kind: "sites", Name: "Read"},
-		{Kind: "sites", Name: "FMap.ReadArea"},
-		{Kind: "sites", Name: "FMap.WriteArea"},
-	}},
-}
+// Each area registers itself from its own file specs_<area>.go (func init).
+var specs []Spec
